@@ -258,11 +258,28 @@ theorem getBytesCnt_true (v N : Nat) (hN : N ≠ 0) :
     by_cases hc : byteLen v > 2 <;> simp only [hc, if_true, if_false] <;>
       (repeat' split) <;> first | rfl | (exfalso; omega)
 
+/-- with an explicit non-zero `byte_cnt` and without `align_to_2n` the value is accepted exactly when it fits -/
+theorem getBytesCnt_false (v N : Nat) (hN : N ≠ 0) :
+    getBytesCnt v false N = if byteLen v ≤ N then .ok N else .error .spsdk := by
+  unfold getBytesCnt
+  by_cases hv : v = 0
+  · subst hv; simp [hN, byteLen, byteLenF]
+  · simp only [hv, if_false, Bool.false_and, Bool.false_eq_true]
+    (repeat' split) <;> first | rfl | (exfalso; omega)
+
+theorem byteLen_le_iff (v N : Nat) : byteLen v ≤ N ↔ v < 256 ^ N := by
+  constructor
+  · intro h
+    have h1 := (byteLenF_min v v (Nat.le_refl v)).1
+    change v < 256 ^ byteLen v at h1
+    exact Nat.lt_of_lt_of_le h1 (Nat.pow_le_pow_right (by omega) h)
+  · exact byteLen_le v N
+
 theorem loadHexString_str (s : List Char) (n : Int) (hs : s ≠ []) (hn : 1 ≤ n) :
     loadHexString (.str s) n =
       match valueToInt (with0x s) with
       | none => .error .spsdk
-      | some v => if widthA v ≤ n.toNat then .ok (some (beEnc n.toNat v)) else .error .spsdk := by
+      | some v => if v < 256 ^ n.toNat then .ok (some (beEnc n.toNat v)) else .error .spsdk := by
   have he : s.isEmpty = false := by cases s <;> simp_all
   have hn' : ¬ n < 1 := by omega
   have hN : n.toNat ≠ 0 := by omega
@@ -270,8 +287,8 @@ theorem loadHexString_str (s : List Char) (n : Int) (hs : s ≠ []) (hn : 1 ≤ 
   cases valueToInt (with0x s) with
   | none => rfl
   | some v =>
-    simp only [valueToBytes, getBytesCnt_true v _ hN]
-    by_cases hw : widthA v ≤ n.toNat <;> simp [hw]
+    simp only [valueToBytes, getBytesCnt_false v _ hN, byteLen_le_iff]
+    by_cases hw : v < 256 ^ n.toNat <;> simp [hw]
 
 theorem widthA_ge (v : Nat) : byteLen v ≤ widthA v := by
   unfold widthA; split <;> omega
